@@ -403,7 +403,10 @@ def _seeds(ctx: Ctx, rng: _Rng) -> None:
 
     net, _, _, _ = _net(ctx, sim, lambda src, dst, body: inbox.append(body), garble, lossy=False)
     for _ in range(1 + ch.draw(3, "n.sentences")):
-        scheme = ch.weighted([("bip39", 6), ("electrum", 2), ("bip85", 3)], "scheme")
+        scheme = ch.weighted([("bip39", 6), ("electrum", 2), ("bip85", 3), ("bip39-shared-words", 1)], "scheme")
+        if scheme == "bip39-shared-words":
+            _shared_words_sentence(ctx)
+            continue
         payload = {"bip39": _gen_bip39, "electrum": _gen_electrum, "bip85": _gen_bip85}[scheme](ctx, rng)
         if payload is not None:
             net.send("gen", "restorer", payload, scheme)
@@ -413,6 +416,68 @@ def _seeds(ctx: Ctx, rng: _Rng) -> None:
             _restore_bip39(ctx, lang, text, meta)
         elif scheme == "electrum":
             _restore_electrum(ctx, lang, text, meta)
+
+
+_SHARED: list[tuple[str, str, list[str]]] | None = None
+
+
+def _shared_pairs() -> list[tuple[str, str, list[str]]]:
+    """(language, language, the words both BIP39 lists hold) for the pairs sharing at least 40 words at other indexes."""
+    global _SHARED  # noqa: PLW0603
+    if _SHARED is None:
+        from btclib.mnemonic.mnemonic import BIP39_LANGUAGE_FILES, WORDLISTS  # noqa: PLC0415
+
+        langs = sorted(BIP39_LANGUAGE_FILES)
+        lists = {lang: WORDLISTS.wordlist(lang) for lang in langs}
+        _SHARED = []
+        for n, a in enumerate(langs):
+            for b in langs[n + 1 :]:
+                both = sorted(set(lists[a]) & set(lists[b]))
+                if len(both) >= 40 and any(lists[a].index(w) != lists[b].index(w) for w in both):
+                    _SHARED.append((a, b, both))
+    return _SHARED
+
+
+def _shared_words_sentence(ctx: Ctx) -> None:
+    """A twelve-word sentence spelled with words two languages share, its checksum made valid in a drawn one of the
+    two: read without being told the language, it decodes to that language's entropy -- unless it happens to be valid
+    in the other as well (about one time in sixteen), which the library documents it refuses as ambiguous."""
+    from btclib.mnemonic import bip39  # noqa: PLC0415
+    from btclib.mnemonic.mnemonic import WORDLISTS  # noqa: PLC0415
+
+    ch = ctx.ch
+    pairs = _shared_pairs()
+    if not pairs:
+        return
+    a, b, both = pairs[ch.draw(len(pairs), "shared.pair")]
+    target, other = (a, b) if ch.draw(2, "shared.target") else (b, a)
+    wl_t, wl_o = WORDLISTS.wordlist(target), WORDLISTS.wordlist(other)
+    words = [both[ch.draw(len(both), "shared.word")] for _ in range(11)]
+    start = ch.draw(len(both), "shared.last")
+    last = next((w for w in both[start:] + both[:start] if ref.bip39_ok([wl_t.index(x) for x in [*words, w]])), None)
+    if last is None:
+        ctx.probe("shared-words:no-closing-word")
+        return
+    sentence = " ".join([*words, last])
+    idx_t, idx_o = [wl_t.index(x) for x in [*words, last]], [wl_o.index(x) for x in [*words, last]]
+    also = ref.bip39_ok(idx_o)
+    ctx.log("shared-words", target, other, "also-valid" if also else "valid-in-one", actor="gen")
+    ctx.state(f"shared:{target}:{other}:{also}")
+    try:
+        got: Any = bip39.entropy_from_mnemonic(sentence)
+        verdict = "decoded"
+    except BTClibException as e:
+        got, verdict = e, "refused"
+    want = ref.bip39_split(idx_t)[0]  # type: ignore[index]
+    if also and ref.bip39_split(idx_o)[0] != want:  # type: ignore[index]
+        ctx.probe("shared-words:valid-in-both")
+        ctx.check(P, "bip39-entropy-round-trips", verdict == "refused" or got in (want, ref.bip39_split(idx_o)[0]), lambda: f"{sentence!r} is valid in {target} and {other}: read as {got!r}", site="bip39.shared-words")  # type: ignore[index]
+        return
+    ctx.probe(f"shared-words:{target}-not-{other}")
+    ctx.check(P, "bip39-entropy-round-trips", verdict == "decoded" and got == want, lambda: f"{sentence!r} (valid in {target}, not in {other}) read without a language: {verdict} {got!r}", site="bip39.shared-words")
+    with ctx.must_succeed(P, "bip39-seed-is-pbkdf2", "bip39.shared-words"):
+        seed = bip39.seed_from_mnemonic(sentence, "")
+    ctx.check(P, "bip39-seed-is-pbkdf2", seed == ref.bip39_seed(sentence, ""), f"{sentence!r}: seed differs from PBKDF2", site="bip39.shared-words")
 
 
 def _passphrase(ch: Any, cjk: bool) -> str:
